@@ -69,8 +69,10 @@ class Tuple(ContainNestedFieldMixin, TypedField, metaclass=_CollectionMeta):
                     self.items.append(item())
                 else:
                     raise TypeError("Expected a Field class or instance")
-        elif isinstance(items, (Field,)) or Field in items.__mro__:
+        elif isinstance(items, (Field,)):
             self.items = [items]
+        elif Field in items.__mro__:
+            self.items = [items()]
         else:
             raise TypeError("Expected a list/tuple of Fields or a single Field")
         super().__init__(*args, **kwargs)
